@@ -25,8 +25,11 @@ enum { K_VECTOR, K_LIST, K_HASHTBL, K_TREETBL, K_LISTTBL, K_LISTTBLU, K_QUEUE, K
 static int K; static const char *kindname;
 static qvector_t *V; static qlist_t *L; static qhashtbl_t *HT; static qtreetbl_t *TT; static qlisttbl_t *LT; static qqueue_t *QU; static qstack_t *ST;
 
+static int FL;          /* element flavour of the current queue/stack history: 0 raw int, 1 int64 (pushint), 2 string (pushstr) */
 static void mk(void) {
     V = NULL; L = NULL; HT = NULL; TT = NULL; LT = NULL; QU = NULL; ST = NULL;
+    /* queue and stack have typed wrappers of their own (pushint/popint/getint, pushstr/popstr/getstr): one flavour per history */
+    static int nth_history; FL = (nth_history++) % 3;
     if (K == K_QUEUE) { QU = qqueue(QQUEUE_THREADSAFE); return; }
     if (K == K_STACK) { ST = qstack(QSTACK_THREADSAFE); return; }
     if (K == K_VECTOR) V = qvector(0, sizeof(int), QVECTOR_THREADSAFE);
@@ -41,6 +44,7 @@ static void rel(void) {
 static const char *keyname(int k) { static const char *n[] = {"k0", "k1", "k2", "k3", "k4", "k5", "k6", "k7"}; return n[k & 7]; }
 static int keyof(const char *s) { return (s && s[0] == 'k') ? atoi(s + 1) : -1; }
 
+static int elem_int(const void *d) { return !d ? 0 : FL == 1 ? (int) *(const int64_t *) d : FL == 2 ? atoi((const char *) d) : *(const int *) d; }
 /* one API call; fills out / outs */
 static void run_op(oprec *o) {
     o->out = 0; o->nouts = 0;
@@ -66,14 +70,22 @@ static void run_op(oprec *o) {
             o->out = o->nouts;
         }
     } else if (K == K_QUEUE) {
-        if (!strcmp(o->op, "addlast")) o->out = QU->push(QU, &x, sizeof x);
-        else if (!strcmp(o->op, "popfirst")) { p = QU->pop(QU, &sz); o->out = p ? *(int *) p : 0; free(p); }
-        else if (!strcmp(o->op, "getat")) { p = QU->getat(QU, o->a, &sz, true); o->out = p ? *(int *) p : 0; free(p); }
+        char sv[16]; snprintf(sv, sizeof sv, "%d", x);
+        if (!strcmp(o->op, "addlast")) o->out = FL == 1 ? QU->pushint(QU, x) : FL == 2 ? QU->pushstr(QU, sv) : QU->push(QU, &x, sizeof x);
+        else if (!strcmp(o->op, "popfirst")) {
+            if (FL == 1) o->out = (int) QU->popint(QU);
+            else if (FL == 2) { char *q = QU->popstr(QU); o->out = q ? atoi(q) : 0; free(q); }
+            else { p = QU->pop(QU, &sz); o->out = p ? *(int *) p : 0; free(p); }
+        } else if (!strcmp(o->op, "getat")) { p = QU->getat(QU, o->a, &sz, true); o->out = elem_int(p); free(p); }
         else if (!strcmp(o->op, "clear")) { QU->clear(QU); o->out = 1; }
     } else if (K == K_STACK) {
-        if (!strcmp(o->op, "addfirst")) o->out = ST->push(ST, &x, sizeof x);
-        else if (!strcmp(o->op, "popfirst")) { p = ST->pop(ST, &sz); o->out = p ? *(int *) p : 0; free(p); }
-        else if (!strcmp(o->op, "getat")) { p = ST->getat(ST, o->a, &sz, true); o->out = p ? *(int *) p : 0; free(p); }
+        char sv[16]; snprintf(sv, sizeof sv, "%d", x);
+        if (!strcmp(o->op, "addfirst")) o->out = FL == 1 ? ST->pushint(ST, x) : FL == 2 ? ST->pushstr(ST, sv) : ST->push(ST, &x, sizeof x);
+        else if (!strcmp(o->op, "popfirst")) {
+            if (FL == 1) o->out = (int) ST->popint(ST);
+            else if (FL == 2) { char *q = ST->popstr(ST); o->out = q ? atoi(q) : 0; free(q); }
+            else { p = ST->pop(ST, &sz); o->out = p ? *(int *) p : 0; free(p); }
+        } else if (!strcmp(o->op, "getat")) { p = ST->getat(ST, o->a, &sz, true); o->out = elem_int(p); free(p); }
         else if (!strcmp(o->op, "clear")) { ST->clear(ST); o->out = 1; }
     } else if (K == K_LIST) {
         if (!strcmp(o->op, "addlast")) o->out = L->addlast(L, &x, sizeof x);
@@ -149,7 +161,7 @@ static void snapshot(vh_buf *b) {
     vh_bprintf(b, "[");
     int first = 1;
     if (K == K_VECTOR) for (size_t j = 0; j < V->num; j++) vh_bprintf(b, "%s%d", j ? "," : "", ((int *) V->data)[j]);
-    else if (K == K_LIST || K == K_QUEUE || K == K_STACK) for (qlist_obj_t *o = (K == K_LIST ? L : K == K_QUEUE ? QU->list : ST->list)->first; o; o = o->next) { vh_bprintf(b, "%s%d", first ? "" : ",", *(int *) o->data); first = 0; }
+    else if (K == K_LIST || K == K_QUEUE || K == K_STACK) for (qlist_obj_t *o = (K == K_LIST ? L : K == K_QUEUE ? QU->list : ST->list)->first; o; o = o->next) { vh_bprintf(b, "%s%d", first ? "" : ",", K == K_LIST ? *(int *) o->data : elem_int(o->data)); first = 0; }
     else if (K == K_HASHTBL) {
         for (int k = 0; k < 8; k++)
             for (size_t i = 0; i < HT->range; i++)
